@@ -94,10 +94,10 @@ impl PrettyPrint {
         }
 
         // HACK: Use the text line so we have the same tab spacing
+        // (columns count characters, so work on characters, not bytes)
         let mut base: String = text
-            .get(first_non_ws..)
-            .unwrap_or_default()
             .chars()
+            .skip(first_non_ws)
             .map(|c| if c.is_whitespace() { c } else { ' ' })
             .collect();
 
@@ -105,6 +105,10 @@ impl PrettyPrint {
         let end = end + 1;
         let arrows = "^".repeat(end.saturating_sub(start));
         let offset = start.saturating_sub(first_non_ws);
+        let offset = base
+            .char_indices()
+            .nth(offset)
+            .map_or(base.len(), |(byte_index, _)| byte_index);
         base.replace_range(offset.., &arrows);
 
         let aligned = text.trim();
